@@ -136,8 +136,10 @@ class Replica:
         torch.save(self.model.state_dict(), buf)
         return buf.getvalue()
 
-    def crash_restart(self, new_build_seed, stale_example=False):
+    def crash_restart(self, new_build_seed, stale_example=False, prologue=()):
         """durable state = the bytes of state_dict(); everything else of the process is lost.
+        `prologue`: what the restarted script does with the fresh wrapper BEFORE it loads the checkpoint (print the
+        summary / cost, export the initial architecture, run an inference batch) - calls that do not change a model.
         Returns (load_result, fresh_keys, saved_keys)."""
         data = self.checkpoint()
         self.ghost = self.model
@@ -149,6 +151,25 @@ class Replica:
         fresh_sd = {k: tuple(v.shape) for k, v in fresh.state_dict().items()}
         self.model = fresh
         self.make_optimizers()
+        for pop in prologue:
+            try:
+                if pop['op'] == 'nograd_eval_forward':
+                    was = [(m_, m_.training) for m_ in self.model.modules()]
+                    self.model.eval()
+                    g = torch.Generator()
+                    g.manual_seed(4242)
+                    shape = (2,) + tuple(self.cfg['spec']['in_shape'])
+                    x = torch.rand(shape, generator=g)
+                    if self.cfg['spec'].get('n_inputs', 1) == 2:
+                        x = (x, torch.rand(shape, generator=g))
+                    with torch.no_grad():
+                        call_model(self.model, x)
+                    for m_, t_ in was:          # the script puts every flag back exactly as it found it
+                        m_.training = t_
+                else:
+                    apply_observer(self, pop)
+            except Exception:
+                pass
         log, self.config_log = self.config_log, []
         for op in log:
             apply_config(self, op, replay=True)
